@@ -67,6 +67,7 @@ pub(crate) fn entity_removed_from_client(
         }
     });
     for &id in despawned_entities.iter() {
+        track.despawned_locally.insert(id);
         client.send_message(
             DefaultChannel::ReliableOrdered,
             bincode::serialize(&Message::EntityDelete { id }).unwrap(),
